@@ -8,7 +8,7 @@ LIBS = {
 PROPS = {
     "C01": {
         "timeouts_not_mine": True,
-        "lean_modules": ["Props.Clean", "Props.Cells", "Props.Facts19"],
+        "lean_modules": ["Props.Clean", "Props.Cells", "Props.Facts19", "Props.C01p"],
         "groups": [{"name": "render", "quick": 2500, "thorough": 60000}, {"name": "C01misc", "quick": 2000, "thorough": 60000},
                    {"name": "C14", "quick": 1500, "thorough": 40000}, {"name": "C06", "quick": 1200, "thorough": 30000, "workers": 12},
                    {"name": "present", "quick": 800, "thorough": 20000, "workers": 12}],
@@ -29,7 +29,7 @@ PROPS = {
     },
     "C14": {
         "timeouts_not_mine": True,
-        "lean_modules": ["Props.Cells", "Props.Clean"],
+        "lean_modules": ["Props.Cells", "Props.Clean", "Props.C01p"],
         "groups": [{"name": "C14", "quick": 4000, "thorough": 100000}, {"name": "render", "quick": 1500, "thorough": 40000},
                    {"name": "presentP", "quick": 600, "thorough": 20000, "workers": 12}],
         "rule": "style expressions (nesting and concatenation of the eight style functions over texts with newlines, blanks, tabs, wide characters) optionally followed by 0..3 layout steps (wrap, dumbwrap, pad, indent, snip, quote, header, bullet, link, linkblock); a terminal state machine is run on the implementation's output: per-character attributes must equal the enclosing style functions, and no attribute may be active at a line break or at the end; plus the render group; "
@@ -131,7 +131,9 @@ PROPS = {
         "assumptions": ["amount + startingPoint < 2^64 (Go uint)"],
     },
     "C11": {
-        "groups": [{"name": "C11", "quick": 4000, "thorough": 150000}],
+        "groups": [{"name": "C11", "quick": 4000, "thorough": 150000},
+                   # feeds over simulator-served actors and collections, through splicer.NewSplicer and the UI
+                   {"name": "C07", "quick": 128, "thorough": 4000, "workers": 16}],
         "rule": "0..4 sources of 0..7 items (newest-first with ties, or unsorted; missing timestamps; empty and nil sources) over exact-delivery synthetic containers x scripts of 1..6 harvests (sizes 0..6, start offsets, 'again' = the same position asked twice); "
                 "non-trivial = at least two sources and three delivered items; distinct by op content",
         "trusted": ["slice aliasing in Splicer.clone (shared backing arrays) is modelled by value semantics; 'again' steps re-harvest old positions to exercise it",
